@@ -46,6 +46,19 @@ impl NodeProcessor for Processor {
             return;
         }
 
+        // removing a nil value moves its variable to the end of the declaration: when a
+        // name is declared more than once, the order decides which declaration is visible
+        let has_duplicated_names = assignment.iter_variables().enumerate().any(|(i, a)| {
+            assignment
+                .iter_variables()
+                .skip(i + 1)
+                .any(|b| a.get_identifier().get_name() == b.get_identifier().get_name())
+        });
+
+        if has_duplicated_names {
+            return;
+        }
+
         if assignment.variables_len() > assignment.values_len()
             && assignment
                 .last_value()
